@@ -16,29 +16,44 @@ Theorem C06_grammar_pinned : Verif.Gen.Grammar.grammar = Verif.Model.Grammar.gra
 Proof. exact grammar_pinned. Qed.
 Print Assumptions C06_grammar_pinned.
 
-(* FULL STATEMENT (expressions):
-     forall c, wf c = true -> parse_expr (body c) = Some (erase c)
-   for every concrete-syntax tree c of any depth: every parent x child x position combination,
-   minimal parentheses where the shape needs them, redundant `( e )` and `+ atom` anywhere the
-   grammar allows them; [erase c] is c without the redundant syntax.  Proved below for all trees
-   that contain no sub-SELECT used as an expression ([nosel]); that case is what is missing. *)
-Theorem C06_expr_roundtrip_partial : forall c : expr,
-  wf c = true -> nosel c = true -> parse_expr (body c) = Some (erase c).
-Proof. exact expr_roundtrip_nosel. Qed.
-Print Assumptions C06_expr_roundtrip_partial.
+(* Expressions.  For every concrete-syntax tree c of any depth -- every parent x child x position
+   combination, parentheses where the shape needs them ([pp]), redundant `( e )` and `+ atom` anywhere
+   the grammar allows them, sub-SELECTs included -- parsing the printed tokens gives [erase c], the tree
+   without the redundant syntax.  [pp 1 c] is [body c], parenthesised when c is a bare SELECT. *)
+Theorem C06_expr_roundtrip : forall c : expr, wf c = true -> parse_expr (pp 1 c) = Some (erase c).
+Proof. exact expr_roundtrip. Qed.
+Print Assumptions C06_expr_roundtrip.
 
 (* On trees of ast.py (no redundant syntax) the parser returns the tree itself. *)
-Theorem C06_expr_roundtrip_pure_partial : forall e : expr,
-  wf e = true -> nosel e = true -> pure e = true -> parse_expr (body e) = Some e.
-Proof. exact expr_roundtrip_pure_nosel. Qed.
-Print Assumptions C06_expr_roundtrip_pure_partial.
+Theorem C06_expr_roundtrip_pure : forall e : expr,
+  wf e = true -> pure e = true -> parse_expr (pp 1 e) = Some e.
+Proof. exact expr_roundtrip_pure. Qed.
+Print Assumptions C06_expr_roundtrip_pure.
 
 (* No two distinct ASTs print to the same tokens. *)
-Theorem C06_print_injective_partial : forall c1 c2 : expr,
-  wf c1 = true -> wf c2 = true -> nosel c1 = true -> nosel c2 = true ->
-  body c1 = body c2 -> erase c1 = erase c2.
-Proof. exact print_injective_nosel. Qed.
-Print Assumptions C06_print_injective_partial.
+Theorem C06_print_injective : forall c1 c2 : expr,
+  wf c1 = true -> wf c2 = true -> pp 1 c1 = pp 1 c2 -> erase c1 = erase c2.
+Proof. exact print_injective. Qed.
+Print Assumptions C06_print_injective.
+
+(* Statements: SELECT with every clause combination (DISTINCT, targets or *, AS names, FROM table /
+   subselect / expression with OPEN ON, CLOSE [ON], CLEAR, WHERE, GROUP BY with positions and HAVING,
+   ORDER BY with positions and DESC, PIVOT BY, LIMIT), BALANCES, JOURNAL and PRINT with their optional
+   parts, over arbitrary well-formed expressions. *)
+Theorem C06_stmt_roundtrip : forall s : stmt,
+  wf_stmt s = true -> parse_tokens (print_stmt s) = Some (stmt_erase s).
+Proof. exact stmt_roundtrip. Qed.
+Print Assumptions C06_stmt_roundtrip.
+
+Theorem C06_stmt_print_injective : forall s1 s2 : stmt,
+  wf_stmt s1 = true -> wf_stmt s2 = true -> print_stmt s1 = print_stmt s2 -> stmt_erase s1 = stmt_erase s2.
+Proof. exact stmt_print_injective. Qed.
+Print Assumptions C06_stmt_print_injective.
+
+(* LEFT PARTIAL: the lexer round trip  lex (render tokens gaps) = Some tokens  (canonical and noisy
+   spellings) is not proved; it is exercised on every run by the correspondence (texts rendered from the
+   printer's tokens with random case, literal spellings, whitespace and comments must lex+parse back).
+   FULL STATEMENT:  forall ts gaps, lex_ok ts = true -> gaps_ok ts gaps -> lex (render_with gaps ts) = Some ts. *)
 
 (* ---------------------------------------------------------------------- *)
 (* Examples: the hypotheses are satisfiable and the precedence chain
@@ -54,7 +69,7 @@ Example C06_wf_example :
   let e := EOr [EAnd [ENot (ECmp Lt (col "a") (EArith Add (col "b") (EArith Mul (col "c") (ENeg (EAttr (col "d") (S "x"))))));
                       EBetween (col "e") (EConst (LInt 1)) (EConst (LDec 25 1))];
                 EIsNull (EFunc (S "f") [col "g"; EList [LNull; LStr (S "s")]])] in
-  wf e = true /\ nosel e = true /\ pure e = true /\ parse_expr (body e) = Some e.
+  wf e = true /\ pure e = true /\ parse_expr (pp 1 e) = Some e.
 Proof. vm_compute. repeat split. Qed.
 
 Example C06_precedence_chain :
@@ -94,3 +109,12 @@ Example C06_identifiers_with_keyword_prefix :
   = Some (SSelect (ESelect false (Some [(col "not_cleared", None); (col "null_x", None); (col "true_v", None)])
                            (Some (FFrom (Some (col "open_x")) None None false)) None None [] None None)).
 Proof. vm_compute. reflexivity. Qed.
+
+Example C06_stmt_example :
+  let st := SSelect (ESelect true (Some [(EArith Add (col "a") (EConst (LInt 1)), Some (S "n"))])
+                       (Some (FSub (ESelect false None (Some (FTable (S "t"))) None None [] None None)))
+                       (Some (ECmp In (col "x") (ESelect false (Some [(col "y", None)]) None None None [] None None)))
+                       (Some ([inl 1%N; inr (EParen (EConst (LInt 2)))], Some (col "h")))
+                       [(inr (col "q"), true)] (Some (inl 1%N, inr (S "w"))) (Some 10%N)) in
+  wf_stmt st = true /\ parse_tokens (print_stmt st) = Some (stmt_erase st).
+Proof. vm_compute. split; reflexivity. Qed.
